@@ -1,14 +1,16 @@
 #!/bin/bash
+# VERIF_HOME / VERIF_REPO: run against a scratch copy of /verif and a scratch worktree of /repo (trial runs in parallel)
+V=${VERIF_HOME:-/verif}; R=${VERIF_REPO:-/repo}
 # Applies every behaviour-preserving refactoring under refactors/ to /repo in turn and runs the checks whose units
 # contain the touched code.  Expected: exit 0 or exit 2 for every check, NEVER exit 1 (that would be a false alarm).
-cd /verif || exit 2
-export VERIF_EVIDENCE_DIR=/verif/.work/evidence-trial
-OUT=${1:-/verif/.work/refactor_trials.log}; : > $OUT
-declare -A CHK=( [R1]="C01 C02 C03 C04 C06 C12 C15" [R2]="C01 C03 C04 C07 C12 C15" [R3]="C19 C04 C08 C07" [R4]="C05 C01 C02 C07" [R5]="C09 C10 C11 C01" [R6]="C14 C15 C02" [R7]="C01 C03 C07 C10 C12 C15" [R8]="C02 C14 C15" )
+cd $V || exit 2
+export VERIF_EVIDENCE_DIR=$V/.work/evidence-trial
+OUT=${1:-$V/.work/refactor_trials.log}; : > $OUT
+declare -A CHK=( [R1]="C01 C02 C03 C04 C06 C12 C15" [R2]="C01 C03 C04 C07 C12 C15" [R3]="C19 C04 C08 C07" [R4]="C05 C01 C02 C07" [R5]="C09 C10 C11 C01" [R6]="C14 C15 C02" [R7]="C01 C03 C07 C10 C12 C15" [R8]="C02 C14 C15" [R9]="C09 C10 C11" )
 for f in refactors/*.diff; do
   b=$(basename $f .diff); r=${b%%-*}
-  if ! git -C /repo diff --quiet; then echo "repo dirty" >> $OUT; exit 2; fi
-  git -C /repo apply /verif/$f || { echo "$b APPLY-FAIL" >> $OUT; continue; }
+  if ! git -C $R diff --quiet; then echo "repo dirty" >> $OUT; exit 2; fi
+  git -C $R apply $V/$f || { echo "$b APPLY-FAIL" >> $OUT; continue; }
   line="$b"
   for p in ${CHK[$r]}; do
     ./check $p > /tmp/rt.$$ 2>&1; rc=$?
@@ -16,7 +18,7 @@ for f in refactors/*.diff; do
     if [ $rc -eq 1 ]; then echo "FALSE-ALARM? $b $p: $(grep -E '^VIOLATION|obligation' /tmp/rt.$$ | head -3 | tr '\n' ' ')" >> $OUT; fi
     if [ $rc -eq 2 ]; then echo "  inconclusive $b $p: $(grep -E '^INCONCLUSIVE' /tmp/rt.$$ | cut -c1-220)" >> $OUT; fi
   done
-  git -C /repo checkout -- .
+  git -C $R checkout -- .
   echo "$line" >> $OUT
 done
 rm -f /tmp/rt.$$
